@@ -1,6 +1,7 @@
 """C04 - LR parser is sound always and exact when its table is deterministic."""
 
 import itertools
+import os
 
 from pgverif import cfg, glrobs, pgx
 from pgverif.mon.lr import Diverged, LRMonitor
@@ -29,6 +30,7 @@ def plan(tier):
 
 def required(tier):
     return {
+        "parsers.built_next_to_a_corrupted_cache": 50,
         "nontrivial": 3000 if tier == "quick" else 30000,
         "parsers.constructed": 500,
         "parsers.deterministic": 50,
@@ -59,6 +61,33 @@ def run(ctx):
         ctx.count("lr." + k, v)
 
 
+def grammar_with_corrupted_cache(text):
+    """The grammar loaded from a file next to which an undecodable table cache lies (fault
+    injection: a .pgc left by an interrupted write); the table is then calculated on the
+    library's recovery path - with the options given."""
+    import shutil
+    import tempfile
+    import time
+
+    import parglare
+
+    d = tempfile.mkdtemp(prefix="pgv-c04-")
+    try:
+        path = os.path.join(d, "g.pg")
+        with open(path, "w") as f:
+            f.write(text)
+        pgc = os.path.join(d, "g.pgc")
+        with open(pgc, "w") as f:
+            f.write('[{"actions": [')
+        t = time.time() + 100
+        os.utime(pgc, (t, t))
+        with pgx.quiet():
+            return parglare.Grammar.from_file(path), d
+    except Exception:
+        shutil.rmtree(d, ignore_errors=True)
+        raise
+
+
 def one_grammar(ctx, mon, g, alphabet, maxlen):
     meta = {}
     if ctx.rng.random() < 0.3:
@@ -76,11 +105,23 @@ def one_grammar(ctx, mon, g, alphabet, maxlen):
         if not ctx.more():
             return
         opts = {"prefer_shifts": ps, "prefer_shifts_over_empty": pse, "tables": tables}
-        case0 = {"grammar": text, "g": g.to_json(), "opts": opts}
+        corrupted = ctx.rng.random() < 0.06
+        case0 = {"grammar": text, "g": g.to_json(), "opts": opts, "corrupted_cache": corrupted}
+        tmpd = None
         try:
             with pgx.watchdog(20):
-                pg = pgx.grammar(text)
-                parser = pgx.lr(pg, prefer_shifts=ps, prefer_shifts_over_empty=pse, tables=pgx.LALR if tables == "LALR" else pgx.SLR, build_tree=True)
+                if corrupted:
+                    pg, tmpd = grammar_with_corrupted_cache(text)
+                    ctx.count("parsers.built_next_to_a_corrupted_cache")
+                else:
+                    pg = pgx.grammar(text)
+                try:
+                    parser = pgx.lr(pg, prefer_shifts=ps, prefer_shifts_over_empty=pse, tables=pgx.LALR if tables == "LALR" else pgx.SLR, build_tree=True)
+                finally:
+                    if tmpd:
+                        import shutil
+
+                        shutil.rmtree(tmpd, ignore_errors=True)
         except pgx.CaseTimeout:
             ctx.inconc("construction timeout %r" % text)
             continue
@@ -196,9 +237,17 @@ def replay(case, ctx):
     mon.install()
     try:
         o = case["opts"]
-        pg = pgx.grammar(case["grammar"])
+        tmpd = None
+        if case.get("corrupted_cache"):
+            pg, tmpd = grammar_with_corrupted_cache(case["grammar"])
+        else:
+            pg = pgx.grammar(case["grammar"])
         tb = pgx.LALR if o["tables"] == "LALR" else pgx.SLR
         parser = pgx.lr(pg, prefer_shifts=o["prefer_shifts"], prefer_shifts_over_empty=o["prefer_shifts_over_empty"], tables=tb, build_tree=True)
+        if tmpd:
+            import shutil
+
+            shutil.rmtree(tmpd, ignore_errors=True)
         det = (not o["prefer_shifts"]) and (not o["prefer_shifts_over_empty"]) and all(len(a) == 1 for s in parser.table.states for a in s.actions.values())
         glr = pgx.glr(pgx.grammar(case["grammar"]), tables=tb) if det else None
         check_input(ctx, g, pg, parser, glr, pgx.prod_keys(pg), det, case, case["input"], cfg.Chart(g, case["input"]))
